@@ -25,3 +25,4 @@ import McpModel.Wire.Props
 import McpModel.Gate.Props
 import McpModel.Resume.Props
 import McpModel.Resume.Witness
+import McpModel.Order.Props
